@@ -7,10 +7,15 @@
    formal arguments in order with '-' for the absent ones, the bracketed attribute list —
    is cut by the specification's lexer into tokens which its expression parser reads as
    the record: kind, identifier URI, formal arguments, every other attribute value in
-   order.  The document framing (declarations, bundles) is decided per run by running
-   the extracted reader on the implementation's text (partial). *)
+   order.  Document level (C06_document): the whole text printed for a document without
+   bundles — the document / endDocument frame, the default and prefix declarations, the
+   blank line, one line per record — is read by the specification's reader (with the fuel
+   it derives from the text's length, C06_fuel_suffices) as exactly the document's
+   records, in order, under the table its declarations build.  Bundles inside documents
+   are decided per run by running the extracted reader on the implementation's text
+   (partial). *)
 From Coq Require Import String Ascii List ZArith.
-From Prov Require Import Str Sexp Spec Nsm Values Record World Provn ProvnSpec ProvnProofs IsoProofs SpecProofs ProvnSpecProofs ProvnRecProofs.
+From Prov Require Import Str Sexp Spec Nsm Values Record World Provn ProvnSpec ProvnProofs IsoProofs SpecProofs ProvnSpecProofs ProvnRecProofs ProvnDocProofs.
 Import ListNotations.
 Open Scope string_scope.
 
@@ -169,3 +174,45 @@ Example C06_record_applies :
                     L [A "http://e/k"; L [A "int"; sx_Z 5]]; L [A "http://e/k"; L [A "str"; A "x"]];
                     L [A (spec_prov_uri ++ "type"); L [A "qn"; A "http://e/T"]]]], toks).
 Proof. exact provn_record_applies. Qed.
+
+(* ---- document level.  The fuel the reader takes from the length of the text is enough for the lexer on any
+   text (every token consumes a character). *)
+Theorem C06_fuel_suffices : forall f s l, lex f s = Some l -> lex (String.length s) s = Some l.
+Proof. exact lex_enough. Qed.
+Print Assumptions C06_fuel_suffices.
+
+(* doc_text: the frame, the declarations ds (decl_good: a prefix of word characters, no '>' in a URI), the records.
+   rec_spec_ok is the conjunction of C06_record's premises, under the table the declarations build. *)
+Theorem C06_document_text : forall ds rs css,
+  Forall decl_good ds ->
+  Forall2 (rec_spec_ok (fold_left decl_apply ds builtin_ptable)) rs css -> rs <> [] ->
+  ProvnSpec.read (doc_text ds rs) = Some (L (A "content" :: L (A "bundle" :: A "" :: conts rs css) :: [])).
+Proof. exact provn_document. Qed.
+Print Assumptions C06_document_text.
+
+(* the printer's text is that text: any document without bundles, with a declaration and a record *)
+Theorem C06_printer_text : forall d,
+  dbundles d = [] -> decls_of (bns (dmain d)) <> [] -> brecs (dmain d) <> [] ->
+  doc_provn d = doc_text (decls_of (bns (dmain d))) (brecs (dmain d)).
+Proof. exact doc_provn_text. Qed.
+
+Theorem C06_document : forall d css,
+  dbundles d = [] -> decls_of (bns (dmain d)) <> [] -> brecs (dmain d) <> [] ->
+  Forall decl_good (decls_of (bns (dmain d))) ->
+  Forall2 (rec_spec_ok (fold_left decl_apply (decls_of (bns (dmain d))) builtin_ptable)) (brecs (dmain d)) css ->
+  ProvnSpec.read (doc_provn d)
+  = Some (L (A "content" :: L (A "bundle" :: A "" :: conts (brecs (dmain d)) css) :: [])).
+Proof. exact provn_doc_provn. Qed.
+Print Assumptions C06_document.
+
+(* the premises hold for a document that declares a prefix and holds an entity and a usage *)
+Example C06_document_applies :
+  ProvnSpec.read (doc_provn pd_doc)
+  = Some (L [A "content";
+             L [A "bundle"; A "";
+                L [A "rec"; A (spec_prov_uri ++ "Entity"); A "http://e/e"; L []];
+                L [A "rec"; A (spec_prov_uri ++ "Usage"); A "http://e/u";
+                   L [L [A (spec_prov_uri ++ "activity"); L [A "qn"; A "http://e/a"]];
+                      L [A "http://e/k"; L [A "int"; sx_Z 5]]; L [A "http://e/k"; L [A "str"; A "x"]];
+                      L [A (spec_prov_uri ++ "type"); L [A "qn"; A "http://e/T"]]]]]]).
+Proof. exact provn_document_applies. Qed.
